@@ -36,6 +36,24 @@ M = {
  "C15-1": ("C15", "ContextTracker.__exit__ skips the restore when the saved state equals the scope's own enter value", "turn_memory_guarding_* called inside a scope that was entered when the setting already equalled its value"),
  "C15-2": ("C15", "_in_place_op nulls the target's gradient before the tracking-off early return", "tensor holding a gradient is the target of an in-place op inside no_autodiff: loses its gradient"),
  "C15-3": ("C15", "backward(): constant check before the tracking check", "backward() on a constant tensor of a tracked graph, called inside no_autodiff: clears the graph"),
+ "C02-1": ("C02", "arccsch backward drops the abs(): -g/(x*sqrt(1+x^2))", "arccsch at negative inputs (sign of the gradient flips)"),
+ "C02-2": ("C02", "arccos backward masks only x != 1 and uses sqrt((1-x)(1+x))", "arccos at x = -1: the documented zero convention is lost (inf/nan)"),
+ "C02-3": ("C02", "Tensor.__pow__ fast path also for a 0-d Tensor exponent", "x ** y with y a non-constant 0-d tensor equal to 1 or 2: y receives no gradient"),
+ "C03-1": ("C03", "BinaryUfunc forward drops dtype= when where= is given", "mg.add(a, b, where=mask, dtype=...) returns NumPy's default dtype"),
+ "C03-2": ("C03", "Tensor.__pow__ fast path for any one-element array exponent (size == 1 instead of ndim == 0)", "x ** np.array([[2.0]]): result is not broadcast to the higher rank"),
+ "C03-3": ("C03", "Ravel forward uses order='K'", "ravel of a transposed / Fortran-ordered operand returns elements in memory order"),
+ "C11-1": ("C11", "same code change as C03-2 (operator ** vs mg.power / np.power)", "x ** p with p a single-element array of rank >= 1"),
+ "C11-2": ("C11", "__array_ufunc__ for non-differentiable ufuncs raises only when self is non-constant, else converts operands with asarray", "np.floor_divide(const_tensor, nonconst_tensor): silently returns an array"),
+ "C11-3": ("C11", "Tensor.moveaxis passes (destination, source)", "t.moveaxis(0, 2) on rank >= 3 differs from mg.moveaxis(t, 0, 2)"),
+ "C16-1": ("C16", "conv_nd rejects a configuration only when ALL axes fail to tile", "one axis tiles, the other does not: no ValueError, silently truncated output"),
+ "C16-2": ("C16", "sliding_window_view re-packs only Fortran arrays (np.isfortran) instead of every non-C-contiguous array", "transposed (channels-last -> channels-first) or strided input: windows read foreign memory"),
+ "C16-3": ("C16", "multiclass_hinge drops the hinge argument (default margin 1 always used)", "hinge != 1"),
+ "C17-1": ("C17", "mg.asarray defaults order to 'C'", "mg.asarray(x.T) copies instead of returning the input array"),
+ "C17-2": ("C17", "astype pass-through condition `not constant` instead of `constant is None`", "c.astype(c.dtype, copy=False, constant=False) on a constant tensor returns c itself (still constant)"),
+ "C17-3": ("C17", "geomspace drops axis=", "mg.geomspace([1,2],[100,200], num=3, axis=-1) has the wrong shape"),
+ "C18-1": ("C18", "save() reads tensor._grad instead of tensor.grad", "saving a view tensor whose gradient is derived from its base: gradient not written"),
+ "C18-2": ("C18", "save() writes np.ascontiguousarray(data/grad)", "0-d tensors come back with shape (1,)"),
+ "C18-3": ("C18", "load() skips backward when the saved gradient is empty", "empty tensor with an (empty) gradient comes back with grad None"),
 }
 for k, (prop, what, needs) in M.items():
     d = os.path.join(HERE, "seeded", k)
@@ -47,4 +65,17 @@ for k, (prop, what, needs) in M.items():
         old = json.load(open(os.path.join(d, "meta.json")))
     old.update(meta)
     json.dump(old, open(os.path.join(d, "meta.json"), "w"), indent=1)
+NOTES = {
+ "C09-2": "NEUTRALISED on the repaired tree: fix 978e547 (shape setter calls null_grad() before building placeholders) makes the asserted-None gradient always None, so this change no longer alters behaviour; the demo passes with the patch applied.  Kept for the record (it was detected by C09/C07 before the fix).",
+ "C06-3": "NEUTRALISED on the repaired tree: fix aa9e889 stores the first gradient contribution in the tensor's own memory layout, so the layout of GetItem's zero buffer no longer reaches the user; the demo passes with the patch applied.",
+ "C06-1": "patch.diff is rebased on the repaired tree; the sub-agent's original is patch.orig-snapshot.diff",
+ "C12-1": "patch.diff is rebased on the repaired tree; the sub-agent's original is patch.orig-snapshot.diff",
+ "C14-2": "patch.diff is rebased on the repaired tree; the sub-agent's original is patch.orig-snapshot.diff",
+ "C10-2": "patch.diff is rebased on the repaired tree; the sub-agent's original is patch.orig-snapshot.diff",
+ "C04-2": "patch.diff is rebased on the repaired tree; the sub-agent's original is patch.orig-snapshot.diff",
+}
+for k, note in NOTES.items():
+    f = os.path.join(HERE, "seeded", k, "meta.json")
+    m = json.load(open(f)); m["note"] = note
+    json.dump(m, open(f, "w"), indent=1)
 print(len(M), "metas written")
